@@ -86,7 +86,7 @@ def validate_traces(ctx, traces, tag, expect_reject=False):
 def run(ctx):
     thorough = ctx.tier == "thorough"
     vlib.cargo_build()
-    ctx.model_check("MC_Rpq", "MC_Rpq_thorough.cfg" if thorough else "MC_Rpq_quick.cfg", workers=8, timeout=3000)
+    ctx.model_check("MC_Rpq", "MC_Rpq_thorough.cfg" if thorough else "MC_Rpq_quick.cfg", workers=12 if thorough else 8, timeout=6000)
     if thorough:
         ctx.model_check("MC_Rpq", "MC_Rpq_cap2.cfg", workers=8, timeout=1500)
     ctx.exhaustive = True
